@@ -208,7 +208,8 @@ CheckTerminate(r, e) ==
         <<"P:C12", "check.cur", e.cur = cur[r]>>,
         <<"P:C02", "iterlimit.iff", (e.status = "IterationLimit") <=> lim>>,
         <<"P:C02", "timelimit.after", e.status = "TimeLimit" => tl>>,
-        <<"P:C08", "deadline.stops", (~lim /\ dlx[r]) => e.status = "TimeLimit">>
+        <<"P:C08", "deadline.stops", (~lim /\ dlx[r]) => e.status = "TimeLimit">>,
+        <<"P:C08", "limit.after.k.trials", e.status = "IterationLimit" => Len(hist[r]) = cfg[r].limit>>
      >>)
   /\ orc' = IF lim \/ tl \/ NoMemo(r) THEN orc ELSE Memo(q, e.obs)
   /\ status' = [status EXCEPT ![r] = e.status]
@@ -498,6 +499,7 @@ Raise(r, e) ==
         <<"P:C06", "raise.linesearch.legit", e.kind = "LineSearch" => (pc[r] = "InTrial" /\ cfg[r].newton = "Globalized")>>,
         <<"P:C06", "raise.derivcheck.legit", e.kind = "DerivCheck" => (pc[r] = "Init" /\ cfg[r].derivCheck)>>,
         <<"P:C07", "init.fault.dedicated", (pc[r] = "Init" /\ inner[r].fault) => e.kind = "InitEval">>,
+        <<"P:C07", "tainted.ends.deliberately", (pc[r] # "Init" /\ bad[r] # {}) => e.kind \in DeliberateErrs>>,
         <<"P:C07", "trial.fault.survived", (pc[r] \in {"InTrial", "Post"} /\ inner[r].fault) => e.kind = "LambMax">>,
         <<"P:C03", "wellposed.no.raise", ~cfg[r].wellposed>>,
         <<"P:C08", "deadline.never.raises", (dlx[r] /\ cfg[r].twin = "C08") => twinAlsoAborts>>,
